@@ -284,15 +284,18 @@ Section Custom.
                   | Err e => if catchable e then go (S i) r else Err e
                   end
       end.
-  (* utils._merge_dict_into_dict driven by the INPUT's key order (src.items()); a template key absent from the
-     input is reported first ("Value is missing from input"); [f k v] merges the template's value at k with v *)
-  Definition enc_dict (f : str -> tmpl -> result (list pdna)) : list (str * tmpl) -> result (list pdna) :=
-    fix go vs := match vs with
-                 | [] => Ok []
-                 | (k, v) :: r => match f k v with
-                                  | Ok o => match go r with Ok os => Ok (o ++ os) | Err e => Err e end
-                                  | Err e => Err e end
-                 end.
+  (* the items of a dict, in the TEMPLATE's key order (the order of dna_spec), whatever the key order of the input: a template key
+     absent from the input is "Value is missing from input"; [f t' x] encodes the input's value at the key against the template's *)
+  Definition enc_fields (f : tmpl -> tmpl -> result (list pdna)) (vs : list (str * tmpl)) : list (str * tmpl) -> result (list pdna) :=
+    fix go kvs := match kvs with
+                  | [] => Ok []
+                  | (k, t') :: r => match lookup k vs with
+                                    | None => Err E_VALUE
+                                    | Some x => match f t' x with
+                                                | Ok o => match go r with Ok os => Ok (o ++ os) | Err e => Err e end
+                                                | Err e => Err e end
+                                    end
+                  end.
   (* the fields of a pg.Object, in the template's order (objects of one class have the same fields in schema order) *)
   Definition keys_eqb {X Y} : list (str * X) -> list (str * Y) -> bool :=
     fix go a b := match a, b with
@@ -309,8 +312,9 @@ Section Custom.
     | TLeaf l => match v with TLeaf l' => if leaf_eqb l l' then Ok [] else Err E_VALUE | _ => Err E_VALUE end
     | TDict kvs =>
         match v with
-        | TDict vs => if (length kvs =? length vs) && forallb (fun kv => has_key (fst kv) vs) kvs   (* keys are unique: the key sets are equal *)
-                      then enc_dict (fun k x => with_key (fun t' => enc t' x) (Err E_VALUE) kvs k) vs else Err E_VALUE
+        | TDict vs => match enc_fields enc vs kvs with
+                      | Ok ds => if length kvs =? length vs then Ok ds else Err E_VALUE     (* an input key the template does not have (keys are unique) *)
+                      | Err e => Err e end
         | _ => Err E_VALUE end
     | TObj c kvs =>
         match v with
